@@ -482,6 +482,9 @@ func (st *State) applySpec(spec *FuncSpec, sig *types.Signature, args []Value, p
 	}
 	// ghost assignments of the callee's contract (trusted for external callees)
 	for _, gs := range spec.GhostSets {
+		if !spec.Extern {
+			break // ghost assignments of verified functions speak about their locals; callers rely on ensures
+		}
 		env := mkEnv(pre)
 		env.res = res
 		st.ghostAssign(env, gs[0], gs[1])
